@@ -178,7 +178,15 @@ def gen_case(rng, tier):
             p = common.rand_perm(rng, n)
             what = rng.choice(["range", "dup", "type"])
             if what == "range":
-                p[rng.randrange(n)] = n + rng.randrange(3)
+                how = rng.randrange(4)
+                if how == 0:
+                    p[rng.randrange(n)] = n + rng.randrange(3)
+                elif how == 1:
+                    p[rng.randrange(n)] = -1 - rng.randrange(n + 1)  # too small (a negative index would wrap around)
+                elif how == 2:
+                    p = [v - n for v in p]  # every entry negative, pairwise distinct
+                else:
+                    p = [v + 1 for v in p]  # one-based values given to the zero-based constructor
             elif what == "dup" and n >= 2:
                 p[0] = p[1]
             else:
